@@ -93,6 +93,11 @@ def corpus(driver):
     out.append(sc)
     # a destination populated by an EARLIER copy, after which source links were re-pointed / entries became links: the entry
     # already there is not what the source has now (exit 0 only if it has been brought up to date)
+    # … or a regular file sits where the source now has an (empty) directory: the directory must be there afterwards, or the run fails
+    sc = treerun.Scn(); sc.driver = driver
+    sc.d(b'/W').d(b'/W/S').d(b'/W/S/emptyd').f(b'/W/S/a').d(b'/W/DEST').d(b'/W/DEST/S').f(b'/W/DEST/S/emptyd')
+    sc.opts = ['r']; sc.paths = [b'S', b'DEST']; sc.meta = dict(srcs=[b'/W/S'], dest=b'/W/DEST', destk='dir-populated', single_file=False); sc.tag = 'file-where-directory'
+    out.append(sc)
     for variant in ('stale-link', 'file-where-link', 'dir-where-link', 'same-link'):
         sc = treerun.Scn(); sc.driver = driver
         sc.d(b'/W').d(b'/W/S').d(b'/W/S/rel').d(b'/W/S/rel/v1').d(b'/W/S/rel/v2').f(b'/W/S/rel/v2/x').f(b'/W/S/a').l(b'/W/S/current', b'rel/v2')
@@ -102,6 +107,17 @@ def corpus(driver):
         elif variant == 'file-where-link': sc.f(b'/W/DEST/S/current')
         else: sc.d(b'/W/DEST/S/current').f(b'/W/DEST/S/current/old')
         sc.opts = ['r']; sc.paths = [b'S', b'DEST']; sc.meta = dict(srcs=[b'/W/S'], dest=b'/W/DEST', destk='dir-populated', single_file=False); sc.tag = 'relinked-' + variant
+        out.append(sc)
+    # a DEEP tree (45 levels) with and without --dereference: every level is mirrored
+    for opts in (['r'], ['r', 'L']):
+        sc = treerun.Scn(); sc.driver = driver
+        sc.d(b'/W').d(b'/W/S')
+        pth = b'/W/S'
+        for lvl in range(45):
+            pth += b'/d'; sc.d(pth)
+            if lvl % 11 == 0: sc.f(pth + b'/f%d' % lvl)
+        sc.f(pth + b'/bottom')
+        sc.opts = opts; sc.paths = [b'S', b'DEST']; sc.meta = dict(srcs=[b'/W/S'], dest=b'/W/DEST', destk='absent', single_file=False); sc.tag = 'deep-tree' + ('-L' if 'L' in opts else '')
         out.append(sc)
     # several operands that are different NAMES of one real file (a versioned library and its links; a file and a link to it):
     # every operand is an entry of its own and must be mirrored, in any order
